@@ -327,6 +327,25 @@ def run(prog, check):
                                 isinstance(x.value, ast.Name) and x.value.id == 'self' and f.cls is not None and \
                                 any(c.name == ci.name for c in f.cls.mro):
                             via_self.append('%s:%d' % (f.module.rel, x.lineno))
+                if attr.startswith('_') and not attr.startswith('__'):
+                    # a private table: shared state only matters if the package edits it in place or hands it out
+                    touched = []
+                    for f in prog.all_functions():
+                        for x in ast.walk(f.node):
+                            if not (isinstance(x, ast.Attribute) and x.attr == attr):
+                                continue
+                            par = getattr(x, '_parent', None)
+                            if isinstance(x.ctx, (ast.Store, ast.Del)):
+                                touched.append(x.lineno)
+                            elif isinstance(par, ast.Subscript) and par.value is x and isinstance(par.ctx, (ast.Store, ast.Del)):
+                                touched.append(x.lineno)
+                            elif isinstance(par, ast.Attribute) and par.value is x and par.attr in (
+                                    'append', 'extend', 'insert', 'pop', 'remove', 'clear', 'update', 'setdefault', 'add', 'discard', 'sort', 'reverse', 'popitem'):
+                                touched.append(x.lineno)
+                            elif isinstance(par, (ast.Return, ast.Assign, ast.Yield)) and getattr(par, 'value', None) is x:
+                                touched.append(x.lineno)
+                    if not touched:
+                        via_self = []
                 ok = not via_self
                 check.ob('C17.R5', '%s::class-level-mutable(%s)' % (ci.key, attr), ok, '%s:%d' % (ci.module.rel, st.lineno),
                          'class-level %s is only used as an explicit process-wide registry (%s.%s)' % (attr, ci.name, attr) if ok else
